@@ -96,6 +96,11 @@ def gen_case(rng, tier):
     if u8:
         A, B = dgmgen.gen_u8_pair(rng, max_n)
         prelude = []
+    # other callers in the same process: 1-2 more pairs evaluated by concurrent threads (re-entrancy)
+    conc = []
+    if max_n <= 12 and rng.random() < 0.12:
+        for _ in range(rng.randint(1, 2)):
+            conc.append(list(dgmgen.gen_pair(rng, rng.choice((4, 8)), allow_inf=False)))
     case_ = {
         "inputs": {"dgm1": A, "dgm2": B, "rep1": dgmgen.representation(rng, A),
                    "rep2": dgmgen.representation(rng, B), "prelude": prelude},
@@ -103,6 +108,9 @@ def gen_case(rng, tier):
                    "warn_filter": rng.choice(mc.WARN_FILTERS), "prewarm_registry": rng.random() < 0.3},
         "ops": [],
     }
+    if conc:
+        case_["inputs"]["concurrent"] = conc
+        case_["config"]["p_switch"] = rng.choice((2, 4, 8))
     if u8:
         case_["inputs"]["rep1"] = case_["inputs"]["rep2"] = "u8"
     return case_
@@ -217,6 +225,42 @@ def run_case(case, sched):
             raise Violation("order-independent", "bottleneck", "differs/" + tag,
                             "returned %r under %s but %r under %s" % (v0, vals[0][1], v, where))
 
+    # ---- concurrent callers: the same evaluation while other threads evaluate other pairs
+    conc_stats = {}
+    conc = inp.get("concurrent") or []
+    if conc and cfg.get("set_order", "sim") == "sim":
+        import warnings
+        from sim import callers as cc
+        bott, _ = mc.sut()
+        jobs = [(A, B, ref, scale)]
+        for pq in conc:
+            if not (isinstance(pq, list) and len(pq) == 2):
+                raise InvalidCase("concurrent")
+            dgmgen.check_diagram_json(pq[0])
+            dgmgen.check_diagram_json(pq[1])
+            P, Q = rm.finite_part(pq[0]), rm.finite_part(pq[1])
+            if len(P) != len(pq[0]) or len(Q) != len(pq[1]):
+                raise InvalidCase("finite pairs only")
+            jobs.append((dgmgen.materialize(pq[0]), dgmgen.materialize(pq[1]), oracle_value(P, Q),
+                         max([abs(x) for p_ in list(P) + list(Q) for x in p_] + [1.0])))
+        if len(jobs) > 4:
+            raise InvalidCase("too many concurrent callers")
+        thunks = [(lambda a_=a_, b_=b_: bott(a_, b_)) for a_, b_, _, _ in jobs]
+        with simset.order_scope(sched, (cfg.get("modes") or ["uniform"])[0]):
+            with warnings.catch_warnings(record=True):
+                warnings.simplefilter("always")
+                outs = cc.run_concurrent(sched, thunks, cfg.get("p_switch", 4), conc_stats)
+        for ci, ((st, v), (_, _, r_, sc_)) in enumerate(zip(outs, jobs)):
+            if st != "ok":
+                raise Violation("no-exception", "bottleneck(concurrent)", type(v).__name__,
+                                "caller #%d of %d concurrent callers: bottleneck raised %s: %s" % (ci, len(jobs), type(v).__name__, v))
+            v = float(v)
+            if not close(v, r_, sc_):
+                raise Violation("value==min-max-cost", "bottleneck(concurrent)", "nan" if math.isnan(v) else ("gt-ref" if v > r_ else "lt-ref"),
+                                "caller #%d of %d concurrent callers (each with its own diagrams) got %r, true min-max "
+                                "matching cost is %r; sequentially the same call returned %r" % (ci, len(jobs), v, r_, vals[0][0] if ci == 0 else "the reference"))
+        sched.note("concurrent %d callers ok switches=%d" % (len(jobs), conc_stats.get("thread_switches", 0)))
+
     D_cands = np.concatenate([rm.linf_costs(SA, TB)[0].ravel(), 0.5 * (SA[:, 1] - SA[:, 0]),
                               0.5 * (TB[:, 1] - TB[:, 0])]) if len(SA) + len(TB) else np.zeros(0)
     probes = {
@@ -239,13 +283,25 @@ def run_case(case, sched):
         and (simset.CTX.permuted > 0 or cfg.get("set_order") != "sim"),
         "probes": probes,
         "faults": {"set_iterations_ordered": simset.CTX.iters, "non_insertion_choices": simset.CTX.permuted,
-                   "cases_with_call_history": int(n_prelude > 0)},
+                   "cases_with_call_history": int(n_prelude > 0),
+                   "concurrent_batches": conc_stats.get("concurrent_batches", 0),
+                   "thread_preemption_points": conc_stats.get("preemption_points", 0),
+                   "thread_switches": conc_stats.get("thread_switches", 0)},
     }
 
 
 def shrink_candidates(case):
     from sim import shrink as shr
     import copy
+    if case["inputs"].get("concurrent"):
+        c = copy.deepcopy(case)
+        del c["inputs"]["concurrent"]
+        yield c
+        for i in range(len(case["inputs"]["concurrent"])):
+            if len(case["inputs"]["concurrent"]) > 1:
+                c = copy.deepcopy(case)
+                del c["inputs"]["concurrent"][i]
+                yield c
     pre = case["inputs"].get("prelude") or []
     for i in range(len(pre)):
         c = copy.deepcopy(case)
